@@ -1,7 +1,7 @@
 ----------------------------- MODULE WindowTrace -----------------------------
 (***************************************************************************)
 (* Trace validation for C09.  A trace is a concatenation of runs           *)
-(*   reset(w, s, nonempty, model) ; add(item, ts, fired)* ; end            *)
+(*   reset(w, s, strat, model) ; add(item, ts, fired)* ; flush ; end       *)
 (* recorded from the real CSPARQLWindow.  The verdict per run is the       *)
 (* requirement of C09 evaluated on what the consumer observed: there is an *)
 (* assignment of aligned intervals to the firings (content exact, closes   *)
@@ -28,12 +28,17 @@ MinOf(S) == CHOOSE x \in S : \A y \in S : x <= y
 
 W == cfg.w
 S == cfg.s
+Has(name) == \E i \in 1..Len(cfg.strat) : cfg.strat[i][1] = name
+HasClose == Has("close")
+PlainClose == HasClose /\ \A i \in 1..Len(cfg.strat) : cfg.strat[i][1] \in {"close", "nonempty"}
 
 \* what a window [c-W, c) must contain: each item once, with its latest in-interval timestamp
-Expected(c) ==
-  LET occ == {k \in 1..Len(pushes) : c - W <= pushes[k][2] /\ pushes[k][2] < c}
+ExpectedN(c, n) ==
+  LET occ == {k \in 1..n : c - W <= pushes[k][2] /\ pushes[k][2] < c}
       ids == {pushes[k][1] : k \in occ}
   IN  {<<id, MaxOf({pushes[k][2] : k \in {j \in occ : pushes[j][1] = id}})>> : id \in ids}
+
+Expected(c) == ExpectedN(c, Len(pushes))
 
 \* items (each once, latest in-range timestamp) with timestamp in [lo, hi)
 Expected2(lo, hi) ==
@@ -41,17 +46,25 @@ Expected2(lo, hi) ==
       ids == {pushes[k][1] : k \in occ}
   IN  {<<id, MaxOf({pushes[k][2] : k \in {j \in occ : pushes[j][1] = id}})>> : id \in ids}
 
-\* aligned closes that can explain firing f when the previous close was prev
+\* aligned closes that can explain firing f when the previous close was prev: the content is what the interval held
+\* when the report was made (f.n pushes had been made; a report precedes the insertion of the triggering item); with
+\* OnWindowClose the interval is closed by then.  Lists with OnContentChange only promise "nothing foreign" (Window.tla).
 Candidates(f, prev) ==
-  LET lo == IF f.items = {} THEN prev ELSE MaxOf({prev} \cup {MaxOf({x[2] : x \in f.items}) + 1})
-      hi == IF f.items = {} THEN f.ts ELSE MinOf({f.ts} \cup {MinOf({x[2] : x \in f.items}) + W})
-  IN  {c \in lo..hi : c % S = 0 /\ Expected(c) = f.items}
+  LET top == IF HasClose THEN f.ts ELSE f.ts + W
+      lo == IF f.items = {} THEN prev ELSE MaxOf({prev} \cup {MaxOf({x[2] : x \in f.items}) + 1})
+      hi == IF f.items = {} THEN top ELSE MinOf({top} \cup {MinOf({x[2] : x \in f.items}) + W})
+  IN  {c \in lo..hi : c % S = 0 /\ IF Has("change") THEN f.items \subseteq ExpectedN(c, f.n) ELSE ExpectedN(c, f.n) = f.items}
 
 RECURSIVE Greedy(_, _)
 Greedy(k, prev) ==
   IF k > Len(firings) THEN TRUE
   ELSE LET good == Candidates(firings[k], prev)
-       IN  IF good = {} THEN FALSE ELSE Greedy(k + 1, MinOf(good))
+       IN  IF good = {} THEN FALSE ELSE Greedy(k + 1, IF HasClose THEN MinOf(good) ELSE 0)
+
+StrategyPost ==
+  \A k \in 1..Len(firings) : \A i \in 1..Len(cfg.strat) :
+     /\ (cfg.strat[i][1] = "periodic" => firings[k].ts % cfg.strat[i][2] = 0)
+     /\ (cfg.strat[i][1] = "nonempty" => firings[k].items # {})
 
 TriggersIncrease == \A k \in 1..(Len(firings) - 1) : firings[k].ts < firings[k + 1].ts
 
@@ -89,32 +102,36 @@ RunOK ==
   /\ FlushOK
   /\ TriggersIncrease
   /\ Greedy(1, 0)
-  /\ (Len(pushes) >= 1 /\ Dense) => DenseOK
+  /\ StrategyPost
+  /\ (PlainClose /\ Len(pushes) >= 1 /\ Dense) => DenseOK
 
 \* conformance of the code-shaped model (only for runs generated by TLC)
+\* cfg.model is the sequence of behaviours the model has for this stream (more than one only with OnContentChange,
+\* whose outcome depends on the HashMap iteration order): the observation must be one of them
 ModelAgrees ==
   cfg.hasmodel =>
      /\ (flush # <<>> => flush[1] = {<<x[1], x[2]>> : x \in ToSet(cfg.mflush.items)})
-     /\ Len(cfg.model) = Len(firings)
-     /\ \A k \in 1..Len(firings) :
-           /\ cfg.model[k].ts = firings[k].ts
-           /\ ToSet(cfg.model[k].items) = {<<x[1], x[2]>> : x \in firings[k].items}
+     /\ \E a \in 1..Len(cfg.model) :
+           /\ Len(cfg.model[a]) = Len(firings)
+           /\ \A k \in 1..Len(firings) :
+                 /\ cfg.model[a][k].ts = firings[k].ts
+                 /\ ToSet(cfg.model[a][k].items) = {<<x[1], x[2]>> : x \in firings[k].items}
 
 Init == /\ l = 1
-        /\ cfg = [w |-> 1, s |-> 1, ne |-> FALSE, run |-> 0, hasmodel |-> FALSE, model |-> <<>>, mflush |-> [items |-> <<>>]]
+        /\ cfg = [w |-> 1, s |-> 1, ne |-> FALSE, strat |-> <<>>, run |-> 0, hasmodel |-> FALSE, model |-> <<>>, mflush |-> [items |-> <<>>]]
         /\ pushes = <<>> /\ firings = <<>> /\ panicked = FALSE /\ flush = <<>>
 
 Ev == Rec[l]
 
 Reset == /\ Ev.ev = "reset"
-         /\ cfg' = [w |-> Ev.w, s |-> Ev.s, ne |-> Ev.nonempty, run |-> Ev.run,
+         /\ cfg' = [w |-> Ev.w, s |-> Ev.s, ne |-> Ev.nonempty, strat |-> Ev.strat, run |-> Ev.run,
                     hasmodel |-> Ev.hasmodel, model |-> Ev.model, mflush |-> Ev.mflush]
          /\ pushes' = <<>> /\ firings' = <<>> /\ panicked' = FALSE /\ flush' = <<>>
 
 AddEv == /\ Ev.ev = "add"
          /\ pushes' = Append(pushes, <<Ev.item, Ev.ts>>)
          /\ firings' = firings \o [k \in 1..Len(Ev.fired) |->
-                                     [ts |-> Ev.ts, items |-> {<<x[1], x[2]>> : x \in ToSet(Ev.fired[k].items)}]]
+                                     [ts |-> Ev.ts, n |-> Len(pushes), items |-> {<<x[1], x[2]>> : x \in ToSet(Ev.fired[k].items)}]]
          /\ panicked' = (panicked \/ Ev.panic)
          /\ UNCHANGED <<cfg, flush>>
 
